@@ -351,7 +351,7 @@ def imiLine : P String := do
   let ids ← P.nats; let cont ← P.nats; P.bar
   let fwd ← P.nats; let post ← P.nats; let arrow ← P.nats; let plus ← P.nats; let sub ← P.nats; let pluseq ← P.nats
   let rev ← P.nats; let revpost ← P.nats; let minus ← P.nats; let minuseq ← P.nats; let dist ← P.nats
-  let total ← P.nat; let cmpWrong ← P.nat; P.eof
+  let total ← P.nat; let cmpWrong ← P.nat; let oldpos ← P.nats; let newpos ← P.nats; P.eof
   let r : AITB.IndexMap.Rng := ⟨ids, cont⟩
   if !(ids.all (· < cont.length)) then pure "skip invalid_ids" else
   let some? (l : List Nat) : List (Option Nat) := l.map some
@@ -369,6 +369,9 @@ def imiLine : P String := do
   let v := v.failIf (some? minus != AITB.IndexMap.walkMinus r) s!"{c} minus_wrong_entries ids={ids} impl={minus}"
   let v := v.failIf (some? minuseq != AITB.IndexMap.walkMinus r) s!"{c} minuseq_wrong_entries ids={ids} impl={minuseq}"
   let v := v.failIf (total != ids.length) s!"{c} end_minus_begin_wrong impl={total} n={ids.length}"
+  -- `it--` returns the position before the step, `--it` the position after it
+  let v := v.failIf (oldpos != (List.range ids.length).map (fun k => ids.length - k)) s!"{c} postdecrement_returns_wrong_position impl={oldpos} n={ids.length}"
+  let v := v.failIf (newpos != (List.range ids.length).map (fun k => ids.length - 1 - k)) s!"{c} predecrement_returns_wrong_position impl={newpos} n={ids.length}"
   let v := v.failIf (cmpWrong != 0) s!"{c} comparisons_or_differences_wrong count={cmpWrong}"
   pure v.render
 
